@@ -28,7 +28,7 @@ UUID4 = re.compile(r"^[0-9a-f]{8}-[0-9a-f]{4}-4[0-9a-f]{3}-[89ab][0-9a-f]{3}-[0-
 def floors(tier):
     k = 1 if tier == "quick" else 6
     return {"rejections_checked": (12 if tier == "quick" else 50), "calls_judged": 800 * k, "populated_observed": 500 * k, "caller_value_kept": 300 * k,
-            "explicit_empty_optional": 80 * k, "transport:rest": 200 * k, "transport:aio": 250 * k, "unlisted_method_calls": 60 * k, "controls_accepted": 15}
+            "explicit_empty_optional": 80 * k, "transport:rest": 200 * k, "transport:aio": 250 * k, "unlisted_method_calls": 60 * k, "controls_accepted": 15, "sub_package_rejections": 5}
 
 
 def plan(seed, tier):
@@ -37,12 +37,18 @@ def plan(seed, tier):
     for j in range(1 if tier == "quick" else 5):
         for i, v in enumerate(apigen.AUTOPOP_VIOLATIONS):
             cases.append({"id": f"uuid-bad-{seed}-{j}-{v}", "seed": seed * 100003 + 9000 + 100 * j + i, "violation": v})
+    # every service in a proto sub-package: valid settings are applied, invalid ones rejected, all the same
+    cases += [{"id": f"uuid-sub-{seed}-{i}", "seed": seed * 100003 + 7000 + i, "violation": None, "subpkg": True} for i in range(2 if tier == "quick" else 8)]
+    vs = list(apigen.AUTOPOP_VIOLATIONS)
+    random.Random(seed).shuffle(vs)
+    for i, v in enumerate(vs[:6] if tier == "quick" else vs):
+        cases.append({"id": f"uuid-bad-sub-{seed}-{v}", "seed": seed * 100003 + 7500 + i, "violation": v, "subpkg": True})
     return cases
 
 
 def build_api(case):
     rng = random.Random(case["seed"])
-    return apigen.autopop_api(rng, "u%d" % (case["seed"] % 100000), violation=case["violation"])
+    return apigen.autopop_api(rng, "u%d" % (case["seed"] % 100000), violation=case["violation"], subpkg=bool(case.get("subpkg")))
 
 
 def run_case(case):
@@ -53,7 +59,7 @@ def run_case(case):
         viol = []
         # control: the same API without the planted entry is accepted — otherwise a rejection says nothing about the planted entry
         rng_c = random.Random(case["seed"])
-        ctl = apigen.autopop_api(rng_c, "u%d" % (case["seed"] % 100000), violation=case["violation"], plant=False)
+        ctl = apigen.autopop_api(rng_c, "u%d" % (case["seed"] % 100000), violation=case["violation"], plant=False, subpkg=bool(case.get("subpkg")))
         sc2 = os.path.join(scratch, "control")
         os.makedirs(sc2, exist_ok=True)
         _rq, gc_, _lb = pipeline.build_and_generate(ctl, sc2)
@@ -63,7 +69,7 @@ def run_case(case):
             viol.append({"clause": "invalid-settings-accepted", "detail": {"violation": case["violation"]}, "mech": {"violation": case["violation"]}})
         elif "MethodSettingsError" not in (g.exc_type or ""):
             viol.append({"clause": "rejection-not-methodsettingserror", "detail": g.failure(), "mech": {"violation": case["violation"]}})
-        return {"verdict": "violated" if viol else "held", "violations": viol, "evaluations": 1, "counters": {"rejections_checked": 1, "controls_accepted": 1},
+        return {"verdict": "violated" if viol else "held", "violations": viol, "evaluations": 1, "counters": {"rejections_checked": 1, "controls_accepted": 1, "sub_package_rejections": int(bool(case.get("subpkg")))},
                 "nontrivial_sigs": [] if viol else ["rejected|" + case["violation"]],
                 "sample": {"violation": case["violation"], "error": f"{g.exc_type}: {(g.exc_msg or '')[:160]}"}}
     if not g.ok:
@@ -110,7 +116,7 @@ def run_case(case):
                                 d[pf] = ""
                         call["dict"] = d
                     calls.append(call)
-    script = {"root_pkg": apigen.lib_root(api.info, api.options), "calls": calls}
+    script = {"root_pkg": apigen.lib_root(api.info, api.options) + ("." + api.info["sub"] if api.info.get("sub") else ""), "calls": calls}
     ev, rc, err = pipeline.run_runner("checks.c18", script, lib, timeout=250)
     if ev is None or "runner_crash" in ev or "library_import_error" in ev:
         return pipeline.runner_failed_result(ev, rc, err, api)
